@@ -17,7 +17,8 @@ case "${1:-}" in
   replay) prop=$(sed -n 's/.*"property": *"\([A-Z0-9]*\)".*/\1/p' "${2:-/dev/null}" | head -1);;
 esac
 variant=plain
-case "$prop" in C08|C09) variant=vsched;; esac
+case "$prop" in C08|C09) variant=vsched;; C05) variant=maporder;; esac
+MAPORDER_PKGS="./pkg/engine ./pkg/action ./pkg/release/util ./pkg/chart/v2/util ./pkg/chart/v2/loader ./pkg/chart/v2 ./pkg/cli/values"
 fail_build() {
   # The tree under test does not build: nothing can be decided. Not an alarm.
   echo "HARNESS-BUILD-FAILED (see bin/build.log)" >&2
@@ -37,6 +38,22 @@ if [ "$variant" = vsched ]; then
   else
     echo "HARNESS-CANNOT-INSTRUMENT: $(tail -1 "$ov/rewrite.log")" >&2
     variant=plain   # the lock/goroutine-level parts report exhaustive:false
+  fi
+fi
+if [ "$variant" = maporder ]; then
+  # C05: every range-over-map of the rendering packages becomes an explored choice
+  if [ ! -x bin/maporder ] || [ tools/maporder/main.go -nt bin/maporder ]; then
+    ( cd tools/maporder && go build -o ../../bin/maporder . ) >bin/build.log 2>&1 || fail_build
+  fi
+  ov=$(mktemp -d /var/tmp/verif-ov.XXXXXX)
+  trap 'rm -rf "$ov"' EXIT
+  if ( cd /repo && "$VERIF_DIR/bin/maporder" -out "$ov" -shim "$VERIF_DIR/harness/shim" $MAPORDER_PKGS ) >"$ov/maporder.log" 2>&1; then
+    ( cd harness && go build -tags maporder -overlay "$ov/overlay.json" -o ../bin/verif-maporder ./cmd/verif ) >bin/build.log 2>&1 || fail_build
+    cp "$ov/sites.json" bin/maporder-sites.json
+    VERIF_MAPORDER_SITES="$VERIF_DIR/bin/maporder-sites.json" ./bin/verif-maporder "$@"
+    exit $?
+  else
+    echo "HARNESS-CANNOT-INSTRUMENT: $(tail -1 "$ov/maporder.log")" >&2
   fi
 fi
 ( cd harness && go build -o ../bin/verif ./cmd/verif ) >bin/build.log 2>&1 || fail_build
